@@ -1,6 +1,8 @@
 package host
 
 import (
+	"bytes"
+	"encoding/binary"
 	"strconv"
 	"strings"
 
@@ -38,4 +40,35 @@ func ParsePath(path string) (string, string, error) {
 	}
 
 	return split[1], split[2], nil
+}
+
+// ParseClientKey splits a full client store key "clients/{chainName}/{path}" into
+// the chain name and the path inside the client prefixed store. The path may contain
+// binary data (big-endian heights), therefore only the chain name, which cannot
+// contain the separator, is delimited by searching for '/'.
+func ParseClientKey(key []byte) (chainName string, path []byte, ok bool) {
+	prefix := append(append([]byte{}, KeyClientStorePrefix...), '/')
+	if !bytes.HasPrefix(key, prefix) {
+		return "", nil, false
+	}
+	rest := key[len(prefix):]
+	idx := bytes.IndexByte(rest, '/')
+	if idx < 0 {
+		return "", nil, false
+	}
+	return string(rest[:idx]), rest[idx+1:], true
+}
+
+// ParseConsensusStateKey parses a consensus state key of a client prefixed store as built
+// by ConsensusStateKey: "consensusStates/{revision number}{revision height}". Revision number
+// and revision height are fixed-width (8 bytes, big-endian) and may contain any byte,
+// including the separator '/', so they are read at fixed offsets. Keys of any other length,
+// e.g. metadata stored under a consensus state key, are not consensus state keys.
+func ParseConsensusStateKey(key []byte) (revisionNumber, revisionHeight uint64, ok bool) {
+	prefix := []byte(KeyConsensusStatePrefix + "/")
+	if !bytes.HasPrefix(key, prefix) || len(key) != len(prefix)+16 {
+		return 0, 0, false
+	}
+	heightBytes := key[len(prefix):]
+	return binary.BigEndian.Uint64(heightBytes[:8]), binary.BigEndian.Uint64(heightBytes[8:]), true
 }
